@@ -161,7 +161,11 @@ class World:
         self.data = wrap(spec["data"], ("s",), self.trace)
         self.funcs = Funcs()
         self.m = Manager()
-        self.roots = {"s": self.m.ref(self.data, "s"), "f": self.m.ref(self.funcs, "f")}
+        if spec.get("refattr"):
+            # container registered with Manager.refattr(): attribute access on the ref means item access on the container
+            self.roots = {"s": self.m.refattr(self.data, "s"), "f": self.m.ref(self.funcs, "f")}
+        else:
+            self.roots = {"s": self.m.ref(self.data, "s"), "f": self.m.ref(self.funcs, "f")}
         self.fun_calls = {}
         self.knob_objs = {}
 
@@ -196,7 +200,9 @@ class World:
     def assign(self, path, value):
         parent = T.ref_of(self.roots, path[:-1])
         kind, key = path[-1]
-        if kind == "i":
+        if kind == "i" and len(path) == 2 and self.spec.get("refattr") and isinstance(key, str) and key.isidentifier():
+            setattr(parent, key, value)      # s.a = value on a refattr() container
+        elif kind == "i":
             parent[key] = value
         else:
             setattr(parent, key, value)
@@ -251,6 +257,9 @@ class World:
             self.knob_objs[op[1]] = task
         elif k == "unregid":
             self.m.unregister(op[1])
+        elif k == "genfun":
+            # generating a setter function is a query: it must not change anything (it may fill caches)
+            self.m.gen_fun("fn", **{f"a{i}": self.ref(L) for i, L in enumerate(op[1])})
         elif k == "refresh":
             self.m.refresh()
         elif k == "cleanup":
@@ -306,6 +315,8 @@ def op_str(op):
         return f"m.load({[(T.path_str(a), T.show(b)) for a, b in op[1]]!r}, overwrite={op[2]})"
     if k in ("freeze", "unfreeze"):
         return f"m.{k}_tree()"
+    if k == "genfun":
+        return "m.gen_fun('fn', " + ", ".join(f"a{i}={T.path_str(L)}" for i, L in enumerate(op[1])) + ")"
     return f"m.{k}()"
 
 
